@@ -664,8 +664,8 @@ esl_opt_ProcessSpoof(ESL_GETOPTS *g, const char *cmdline)
   char  *tok;
   int    status;
 
-  if (g->spoof != NULL || g->spoof_argv != NULL)
-    ESL_XFAIL(eslEINVAL, g->errbuf, "cannot process more than one spoofed command line");
+  if (g->spoof != NULL || g->spoof_argv != NULL)   /* don't go through ERROR: it would free the first spoof, which g->argv and g->val[] still point into */
+    ESL_FAIL(eslEINVAL, g->errbuf, "cannot process more than one spoofed command line");
 
   if ((status = esl_strdup(cmdline, -1, &(g->spoof))) != eslOK) goto ERROR;
   s = g->spoof;
